@@ -503,6 +503,26 @@ def check_compose(case):
     b = a if raised(a) else attempt(whd.derive_from_path, ref.fmt_path(head, path[j:]), a)
     d = _diff(b, base)
     f.expect(d is None, f"compose/split-ne-{label}/{d}", f"split at {j}: {b!r} whole {whole!r}")
+    # history: a path whose TEXT is a prefix of this path's text but which names another child ("m/0" before "m/0'",
+    # "m/0'/1" before "m/0'/12") is derived from the same key first; the path itself must still give the same key, and so
+    # must the shorter one when asked again afterwards
+    pstr = ref.fmt_path(head, path)
+    mids = [pstr[:c] for c in range(len(head) + 2, len(pstr)) if pstr[c] != "/" and pstr[c - 1] != "/"]
+    for t in mids[-1:] + mids[:1] if len(mids) > 1 else mids:
+        idxs = attempt(ref.parse_path, t)
+        if raised(idxs):
+            continue
+        tw = start.derive_path(list(idxs[1]) if isinstance(idxs, tuple) else list(idxs))
+        if tw is None:
+            continue
+        first = attempt(whd.derive_from_path, t, s0)
+        again = attempt(whd.derive_from_path, pstr, s0)
+        d = _diff(again, want.string())
+        f.expect(d is None, f"compose/path-ne-reference-after-text-prefix-path/{d}", f"{t} then {pstr}: {again!r} want {want.string()!r}")
+        back = attempt(whd.derive_from_path, t, s0)
+        ok = (raised(first) and raised(back)) or _diff(back, tw.string()) is None
+        f.expect(ok, "compose/text-prefix-path-ne-reference-after-longer-path", f"{pstr} then {t}: {back!r} want {tw.string()!r}")
+        cls.append("nt:after-text-prefix-path")
     return cls, f
 
 
@@ -797,7 +817,7 @@ def targets(tier):
             check_compose,
             strategy=lambda tier: compose_cases(tier),
             budget={"quick": 80, "thorough": 1200},
-            required=["mode:pub", "mode:prv", "nt:split-inner", "nt:split-empty-prefix", "nt:split-empty-suffix", "nt:start-non-root", "start-root"],
+            required=["mode:pub", "mode:prv", "nt:split-inner", "nt:split-empty-prefix", "nt:split-empty-suffix", "nt:start-non-root", "start-root", "nt:after-text-prefix-path"],
         ),
         Target(
             "serialise",
